@@ -43,7 +43,10 @@ CLAIMED["C02"] = dict(
          "fault) of a message happens strictly before its expiry (C02_never_at_or_after_expiry) and a message is attempted at most "
          "1 + its policy's retries times (C02_attempts_bounded) - stated with the very Spec monitors that judge recordings of the "
          "real socket. Boundary scripts put a connection one tick before / at / after expiry and a write fault on the n-th write; "
-         "the model is tied to the code by block-by-block trace validation. The policy chosen per API command is checked at the API layer.",
+         "the model is tied to the code by block-by-block trace validation. Props/C02At4, C02At5: over the API models, for every state, call "
+         "and argument, the retry policy is NON_IDEMPOTENT exactly for the accumulating commands and every own-initiative request (handshake, refresh, "
+         "heartbeat, poll, error-info) is sent with the CONNECTED policy; on the real API objects every sent message's policy is judged against the "
+         "vendor reading of its frame (toggle / change / increase / decrease => no retry).",
     design_ref="DESIGN.md section 7, C02",
     technique="Lean 4 proof (trace invariants over all schedules) + trace validation + Spec monitors on recorded runs incl. expiry-boundary scripts",
     note=SOCK_NOTE)
@@ -85,7 +88,11 @@ CLAIMED["C15"] = dict(
          "optional re-open with probes) are judged by the monitor and replayed against the model.",
     design_ref="DESIGN.md section 7, C15",
     technique="Lean 4 proof (closed-state invariant + one-step quietness over all schedules) + trace validation + census monitor on recorded runs",
-    note=SOCK_NOTE + "API-level shutdown()/re-init is covered by the API harness when present.")
+    note=SOCK_NOTE + "API level: shutdown() of the real AirTouch4 / AirTouch5 object over the real socket is issued k loop passes after EVERY network "
+         "event and at the timer instants of nine console scenarios (plain, slow console, connect latency, back-off, silence at a handshake step, pending "
+         "commands with a link fault, heartbeat period, dead link) and judged directly against the clauses of the statement, including a later init() "
+         "whose model must equal a fresh object's; this found the interrupted-handshake defect (repaired). The API models treat message handlers as "
+         "atomic, so that interleaving is covered on the implementation only.")
 CLAIMED["C08"] = dict(
     text="Theorems in Props/C08.lean over the timed model of HeartbeatManager (Model/Heartbeat.lean), for every label sequence and every "
          "(interval, timeout): the deadline is always exactly `timeout` after the latest arm point (start, consumed response, reset "
@@ -97,7 +104,10 @@ CLAIMED["C08"] = dict(
          "HeartbeatManager (virtual clock, stub socket) and comparing event for event; every recording is judged by the Spec monitor c08.",
     design_ref="DESIGN.md section 7, C08",
     technique="Lean 4 proof (timed-automaton invariants, simulation against a monitor) + event-for-event correspondence of the model's simulation with the real HeartbeatManager + Spec monitor",
-    note="Assumes timers fire when due (the model's `advance` guard); scenarios whose inputs coincide exactly with a deadline are skipped (order unspecified). The API-level wiring (which message is the heartbeat, response matcher) is checked at the API layer.")
+    note="Assumes timers fire when due (the model's `advance` guard); scenarios whose inputs coincide exactly with a deadline are skipped (order unspecified). "
+         "API-level wiring (which frame is the heartbeat, what counts as its response, who resets): the real AirTouch4 / AirTouch5 objects over the real socket "
+         "against a scripted console with per-heartbeat answer patterns, unsolicited traffic and console-side closes, judged by the same Spec monitor with the "
+         "default 300 s / 330 s configuration.")
 
 CODEC_NOTE = ("Codec layer: enums, constants, struct formats and registries are regenerated from the source on every run (Gen); the "
               "message models are hand-written over them and compared with the real decoders / encoders on every byte value at every "
